@@ -774,3 +774,71 @@ def join_dispatch_table(db, chk, cfg, rule="JOIN.dispatch"):
                                       f.where, cfg=cfg)
                         return n
     return n
+
+
+# ---------------------------------------------------------------------------
+# THRESHOLD.bisector: the square join's bisector cannot be "almost zero" (C06, C07)
+# ---------------------------------------------------------------------------
+
+def bisector_threshold_rule(db, chk, cfg, rule="THRESHOLD.bisector"):
+    """DoSquare averages the two perpendiculars of the adjacent normals; their sum has length sqrt(2 - 2 cos A) (A the turn).  OffsetPoint
+    sends turns with cos A above a literal C (nearly straight) to DoMiter before DoSquare can be reached, so the sum DoSquare sees is at
+    least sqrt(2 - 2C) long.  NormalizeVector gives up (returns the zero vector, and DoSquare then emits the vertex itself) when the
+    length is below AlmostZero's epsilon E.  The two literals must leave no gap: E^2 <= 2 - 2C.  Both are read from the code."""
+    def lit(e):
+        e0 = strip(e)
+        if e0.get("kind") in ("FloatingLiteral", "IntegerLiteral"):
+            return float(e0.get("value"))
+        if e0.get("kind") == "UnaryOperator" and e0.get("opcode") == "-":
+            v = lit(kids(e0)[0])
+            return -v if v is not None else None
+        return None
+    f = db.one("ClipperOffset::OffsetPoint")
+    cs = []
+    for x in walk(f.body):
+        if x.get("kind") != "IfStmt":
+            continue
+        cond, then, els = if_parts(x)
+        tcalls = [y for y in walk(then) if y.get("kind") in ("CXXMemberCallExpr", "CallExpr") and db.callee(y)[0] in ("DoMiter", "DoSquare", "DoRound", "DoBevel")]
+        if len(tcalls) != 1 or db.callee(tcalls[0])[0] != "DoMiter" or len(db.call_args(tcalls[0])) < 4:
+            continue
+        cv = canon(db.call_args(tcalls[0])[3])
+        for a in walk(cond):
+            if a.get("kind") == "BinaryOperator" and a.get("opcode") in (">", ">=", "<", "<="):
+                l, r = kids(a)
+                if canon(l) == cv and lit(r) is not None and a.get("opcode") in (">", ">="):
+                    cs.append((lit(r), x))
+                elif canon(r) == cv and lit(l) is not None and a.get("opcode") in ("<", "<="):
+                    cs.append((lit(l), x))
+    cs = [c for c in cs if 0 < c[0] < 1]
+    if not cs:
+        chk.instance(rule, {"judged": "no literal 'nearly straight -> DoMiter' shortcut found in OffsetPoint", "cfg": cfg}, ok=True)
+        return 1
+    C = max(c[0] for c in cs)
+    # the epsilon NormalizeVector applies to the length
+    nv = [g for g in db.find("NormalizeVector") if g.body is not None] if any(g.name == "NormalizeVector" for g in db.funcs) else []
+    E = None
+    site = None
+    for g in nv:
+        for c in walk(g.body):
+            if c.get("kind") == "CallExpr" and db.callee(c)[0] == "AlmostZero":
+                a = db.call_args(c)
+                if len(a) >= 2 and a[1].get("kind") != "CXXDefaultArgExpr" and lit(a[1]) is not None:
+                    E, site = lit(a[1]), c
+                else:
+                    az = db.callee_func(c)
+                    if az is not None and len(az.params) >= 2:
+                        dflt = [k for k in kids(az.params[1]) if isinstance(k, dict) and k.get("kind")]
+                        if dflt and lit(dflt[-1]) is not None:
+                            E, site = lit(dflt[-1]), c
+    if E is None:
+        chk.instance(rule, {"judged": "NormalizeVector's zero-length test is not `AlmostZero(length[, literal])`", "cfg": cfg}, ok=True)
+        return 1
+    ok = E * E <= 2 - 2 * C
+    chk.instance(rule, {"nearly_straight_cosine": C, "shortest_bisector_sum": (2 - 2 * C) ** 0.5, "almost_zero_epsilon": E, "cfg": cfg}, ok=ok)
+    if not ok:
+        chk.violation(rule, "NormalizeVector", "eps=%s|C=%s" % (E, C),
+                      "OffsetPoint routes turns with cos > %s to DoMiter, so DoSquare's bisector sum can be as short as sqrt(2 - 2*%s) = %.4f; NormalizeVector treats "
+                      "lengths below %s as zero and returns the zero vector: joins turning between the two thresholds are squared along no direction at all "
+                      "(the vertex itself is emitted)" % (C, C, (2 - 2 * C) ** 0.5, E), where(site), cfg=cfg)
+    return 1
